@@ -372,6 +372,12 @@ class Ctx:
             self.drift += int(r.get("drift", 0) or 0)
             if not r.get("ok", False):
                 k = r.get("key", "")
+                # an engine may name further properties whose predicate the same failure breaks
+                own_alias = next((a for a in r.get("also", []) if a.startswith(self.prop + ":")), None)
+                if own_alias and not k.startswith(self.prop + ":"):
+                    r = dict(r)
+                    r["msg"] = "%s (primary key %s)" % (r.get("msg", ""), k)
+                    r["key"] = k = own_alias
                 if only_own and re.match(r"^C\d\d:", k) and not k.startswith(self.prop + ":"):
                     self.cov["failures_of_other_properties"] = self.cov.get("failures_of_other_properties", 0) + 1
                     self.cov.setdefault("other_property_keys", [])
